@@ -73,10 +73,10 @@ func runC03(c *bx.Ctx) {
 		w, rerr := ref.Encode(v.P, opt)
 		if rerr != nil {
 			c.Report(keyJoin("C03", v.Type, "harness", "reference-rejects"), "HARNESS: reference encoder rejects a value of D: "+rerr.Error(),
-				bx.Replay{Entry: "ref.Encode", Value: valueString(v), Expected: "bytes", Observed: rerr.Error()})
+				bx.Replay{Entry: "ref.Encode", Value: valueString(v), ValueGob: valueGob(v), Expected: "bytes", Observed: rerr.Error()})
 			return
 		}
-		rp := bx.Replay{Entry: "Marshal", Value: valueString(v), Expected: bx.Short(w.B), Observed: bx.Short(b)}
+		rp := bx.Replay{Entry: "Marshal", Value: valueString(v), ValueGob: valueGob(v), Expected: bx.Short(w.B), Observed: bx.Short(b)}
 		bad := false
 		if len(b) != len(w.B) {
 			c.Report(keyJoin("C03", v.Type, "size", shapeClass(v.P)), fmt.Sprintf("Marshal output has %d octets, the RFC encoding has %d", len(b), len(w.B)), rp)
